@@ -11,7 +11,9 @@ RULE = ("every public FlwdirRaster / Flwdir method and the module-level function
         "rasters, nodata-dominated rasters) on random loop-free D8 networks 1x2..9x9: each call runs under a time limit "
         "(10 s for <= 81 cells), must return or raise ValueError / IndexError (anything else, e.g. TypeError, "
         "AttributeError, ZeroDivisionError, numba errors, is a violation), must leave every argument array byte-identical "
-        "and, unless it is a documented mutator, the object's network unchanged; non-trivial = at least 40 operations returned")
+        "and, unless it is a documented mutator, the object's network and its memoised arrays (area, distnc, rank, order, pits) "
+        "unchanged; a quarter of the rasters contain loops and get the operations whose domain includes them (rank, isvalid, "
+        "ordering, repair_loops, sweeps over the ordered cells); non-trivial = at least 30 operations returned")
 ASSUMPTIONS = ["termination and in-bounds are THEOREMS only for the modelled kernels (walks along idxs_ds: path_bound; the "
                "other properties' models are total functions whose fuel is proved sufficient); for the rest of the API this "
                "check is exploration with time limits, not proof",
@@ -19,6 +21,11 @@ ASSUMPTIONS = ["termination and in-bounds are THEOREMS only for the modelled ker
                "exact correspondence with models in which an out-of-range read returns a default value",
                "compiled (JIT) execution is out of scope (C07 not applicable); NUMBA_BOUNDSCHECK is therefore not used"]
 MUTATORS = {"add_pits", "repair_loops", "order_cells", "set_transform"}
+# operations whose documented domain includes networks with loops (everything that walks a path needs a loop-free one)
+LOOP_OK = {"order_walk", "order_sort", "rank", "isvalid", "idxs_pit", "nnodes", "n_upstream", "idxs_us_main", "ncells", "idxs_seq", "area",
+           "distnc", "mask", "strahler", "classic", "uparea_cell", "uparea_km2", "accuflux", "accuflux_down", "basins", "basin_outlets",
+           "fill_up", "fill_down", "downstream", "upstream_sum", "stream_distance", "hand", "to_array_d8", "to_array_ldd", "to_array_nextxy",
+           "inflow", "outflow", "repair_loops", "add_pits", "dump_load", "from_array_d8", "from_array_nextxy", "from_array_infer"}
 
 
 def cases(tier, rng):
@@ -29,12 +36,14 @@ def cases(tier, rng):
             nr, nc = (1, rng.randint(2, 9)) if rng.random() < 0.5 else (rng.randint(2, 9), 1)
         else:
             nr, nc = rng.randint(2, 9), rng.randint(2, 9)
-        flw = nets.random_d8_raster(rng, nr, nc, p_nodata=rng.choice([0, 0, 0.1, 0.3, 0.7]))
+        loops = rng.random() < 0.25
+        flw = nets.random_d8_raster(rng, nr, nc, p_nodata=rng.choice([0, 0, 0.1, 0.3, 0.7]), loopfree=not loops)
         ds = nets.d8_decode(flw, nr, nc)
         if not nets.pits(ds):
             continue
-        yield {"k": 1300, "args": [[t]], "call": {"nr": nr, "nc": nc, "flw": flw, "seed": rng.randrange(10**9)},
-               "group": f"raster-{'row' if nr == 1 else 'col' if nc == 1 else 'grid'}"}
+        loops = loops and not nets.is_loopfree(ds)
+        yield {"k": 1300, "args": [[t]], "call": {"nr": nr, "nc": nc, "flw": flw, "seed": rng.randrange(10**9), "loops": int(loops)},
+               "group": "raster-with-loops" if loops else f"raster-{'row' if nr == 1 else 'col' if nc == 1 else 'grid'}"}
 
 
 def _build_ops(nr, nc, ds, rng):
@@ -179,8 +188,17 @@ def impl(case):
     nok = 0
     limit = 10
     for name, fn in opsl:
+        if call.get("loops") and name not in LOOP_OK:
+            continue
         arr = np.array([-1 if x < 0 else x for x in ds], dtype=np.int32)
         flw = pyflwdir.FlwdirRaster(idxs_ds=arr.copy(), shape=(nr, nc), ftype="d8", transform=tr)
+        # memoised quantities of the object: a non-mutator may add entries but not change existing ones
+        memo = {}
+        if name not in ("order_walk", "order_sort") and not call.get("loops"):
+            st0, _ = call_impl(lambda f: (f.area, f.distnc, f.rank, f.idxs_seq, f.idxs_pit), flw, timeout=limit)
+            memo = {k: np.array(v, copy=True) for k, v in list(flw._cached.items()) if isinstance(v, np.ndarray)}
+            memo["_seq"] = np.array(flw._seq, copy=True) if flw._seq is not None else None
+            memo["_pit"] = np.array(flw._pit, copy=True) if flw._pit is not None else None
         t0 = time.time()
         with warnings.catch_warnings():
             warnings.simplefilter("ignore")
@@ -200,6 +218,10 @@ def impl(case):
                 bad.append((f"{name}:mutates-{k}", f"{name} modified its argument '{k}'"))
                 I[k] = cp.copy()
         if not name.startswith(("add_pits", "repair_loops", "order_", "set_transform")):
+            for k, cp in memo.items():
+                cur = flw._cached.get(k) if not k.startswith("_") else getattr(flw, k)
+                if cp is not None and cur is not None and not np.array_equal(np.asarray(cur), cp):
+                    bad.append((f"{name}:mutates-memo-{k.strip('_')}", f"{name} changed the object's memoised '{k}'"))
             if not np.array_equal(np.asarray(flw.idxs_ds), arr):
                 bad.append((f"{name}:mutates-network", f"{name} changed the object's downstream indices"))
     if not bad:
@@ -222,6 +244,6 @@ def oracle(case, out):
 
 def nontrivial(case, out):
     try:
-        return out[-1][0] >= 40
+        return out[-1][0] >= 30
     except Exception:
         return False
